@@ -375,6 +375,8 @@ def rule_c(ctx):
 def rule_d(ctx):
     from .c05 import rule_a as c05a, rule_b as c05b
     c05a(ctx)
+    from .c05 import rule_f as c05f_
+    c05f_(ctx)
     c05b(ctx)
     # credit frames are not subject to the lease: REQUEST_N is never held and consumes no allowance
     from .c14 import rule_gate_scope
